@@ -310,16 +310,19 @@ def lexFrac (bs : Bytes) : Option (Option Bytes × Bytes) :=
     else some (none, bs)
   | [] => some (none, bs)
 
+/-- optional sign of an exponent -/
+def expSign (r : Bytes) : Bool × Bytes :=
+  match r with
+  | s :: r' => if s.toNat = 43 then (false, r') else if s.toNat = 45 then (true, r') else (false, r)
+  | [] => (false, r)
+
 /-- optional exponent; `none` = `e` without digits -/
 def lexExp (bs : Bytes) : Option (Option (Bool × Bytes) × Bytes) :=
   match bs with
   | c :: r =>
     if c.toNat = 101 ∨ c.toNat = 69 then
-      let sr : Bool × Bytes := match r with
-        | s :: r' => if s.toNat = 43 then (false, r') else if s.toNat = 45 then (true, r') else (false, r)
-        | [] => (false, r)
-      if (spanDigits sr.2).1 = [] then none
-      else some (some (sr.1, (spanDigits sr.2).1), (spanDigits sr.2).2)
+      (if (spanDigits (expSign r).2).1 = [] then none
+       else some (some ((expSign r).1, (spanDigits (expSign r).2).1), (spanDigits (expSign r).2).2))
     else some (none, bs)
   | [] => some (none, bs)
 
